@@ -41,7 +41,7 @@ def scan_forbidden():
     return bad
 
 TRANSLATED_USERS = {"C10", "C13", "C19"}
-IMP_USERS = {"CFDivisor": {"C05", "C12", "C20"}, "CFGraph": {"C13", "C20"}, "CFiringScript": {"C06", "C20"}, "CFConfig": {"C10"}, "CFOrientation": {"C11", "C20"}, "CFConfigMoves": {"C05", "C10"}, "CFLaplacian": {"C06"}}
+IMP_USERS = {"CFDivisor": {"C05", "C12", "C20"}, "CFGraph": {"C13", "C20"}, "CFiringScript": {"C06", "C20"}, "CFConfig": {"C10"}, "CFOrientation": {"C11", "C20"}, "CFConfigMoves": {"C05", "C10"}, "CFLaplacian": {"C06"}, "DharAlgorithm": {"C08"}}
 def proof_stage(pid, tier, log):
     """returns dict(obligations, discharged, names, failures[list of str], assumptions)"""
     res = {"obligations": 0, "discharged": 0, "theorems": [], "failures": [], "axioms": []}
